@@ -198,16 +198,22 @@ def sam_ambiguous(originals):
     return any(vs[i] - vs[i - 1] <= 4 * TOL_SAM * vs[i] for i in range(1, len(vs)))
 
 
-def same_distribution(a, b):
-    """counts equal and reported values equal up to f64 rounding of total = value * count; else the difference"""
+def same_distribution(a, b, exact):
+    """re-aggregation must change neither counts nor reported values.  Exponential strategies (exact): the reported
+    value total/occurrences must be the same rational.  Sort-and-merge: the same rational whenever the reported value is
+    itself an f64 (then total / occurrences is an exact division on the unchanged representation), else equal up to
+    the f64 rounding of total = value * count.  Returns the difference as text, or None."""
     ra, rb = reported_of(a), reported_of(b)
     if ra is None or rb is None or len(ra) != len(rb):
         return f"{len(a)} observations became {len(b)}"
     for (v, n), (w, m) in zip(ra, rb):
         if n != m:
             return f"count {n} became {m}"
-        if v is None or w is None or abs(v - w) > TOL_SAM * abs(v):
-            return f"value {float(v)!r} became {float(w)!r}"
+        if v is None or w is None:
+            return "observation without occurrences"
+        tol = 0 if (exact or exact_f64(v) is not None) else TOL_SAM
+        if abs(v - w) > tol * abs(v):
+            return f"value {float(v)!r} ({n} occurrences) became {float(w)!r}"
     return None
 
 
@@ -386,6 +392,44 @@ def make_multi_case(table, strategy, rng):
     return {"strategy": strategy, "source": "multi", "kind": "multi", "steps": [add_step(vs, origs, xrecs)], "what": "multi"}
 
 
+REAGG_LARGE = [1000, 4099, 65537, (1 << 20) + 1, (1 << 33) + 1]
+
+
+def make_reagg_case(table, b, strategy, counts, pick=0):
+    """record n observations of one representative of bucket b, close, re-aggregate - for every n in counts (one drain
+    each): the closed bucket then holds exactly n observations"""
+    reps = sorted(s for s, f in table.reps[b])
+    X = F(reps[pick % len(reps)], 1024)
+    if exact_f64(X) is None:
+        return None
+    steps = []
+    for n in counts:
+        if strategy == "sam" and n > 1000:
+            continue
+        steps.append(src_rep(X, n) if n > 1 else src_obs_f(X))
+        steps.append({"op": "drain"})
+    steps.pop()                                   # the last drain is the implied one
+    return {"strategy": strategy, "source": "obs", "kind": "reagg", "steps": steps,
+            "what": f"re-aggregation, bucket {b}, value {float(X)!r}, every count"}
+
+
+def reagg_cases(table, tier, rng):
+    """every bucket whose scaled range starts below 64 (the reported value sits on the bucket's lower boundary there)
+    and a sample of the buckets above, with every occurrence count 1..256 (1..1024 thorough) and a few large ones"""
+    counts = list(range(1, 257 if tier == "quick" else 1025)) + REAGG_LARGE
+    buckets = list(range(0, 48)) + sorted(rng.sample(range(48, 32 + 36 * 16), 16 if tier == "quick" else 120))
+    cases, pair = [], 1 << 50
+    for b in buckets:
+        for pick in ((0, -1) if 32 <= b < 48 else (0,)):
+            pair += 1
+            for strategy in ("exp", "atomic", "sam"):
+                c = make_reagg_case(table, b, strategy, counts, pick)
+                if c:
+                    c["pair"] = pair
+                    cases.append(c)
+    return cases
+
+
 # TLC behaviours -------------------------------------------------------------------------------
 def behaviour_case(table, beh, strategy, rng):
     """concretise an abstract behaviour: the abstract values (lin; two values of one bucket; two adjacent
@@ -441,7 +485,7 @@ def judge_case(chk, table, case, res):
     kept = None
     di = 0
     drift = None
-    exact = case["kind"] in ("f64", "f32", "u64", "u32", "obs_u", "obs_f", "behaviour", "mixed", "multi", "rep")
+    exact = case["kind"] in ("f64", "f32", "u64", "u32", "obs_u", "obs_f", "behaviour", "mixed", "multi", "rep", "reagg")
     steps = case["steps"] + [{"op": "drain"}]
     for st in steps:
         if st["op"] == "add":
@@ -465,7 +509,7 @@ def judge_case(chk, table, case, res):
                 bump(chk, "sam_drains_not_judged_values_closer_than_1e-12")
             v = judge_property(strategy, cur_orig, d["obs"], exact and case["kind"] != "rep")
             if v is None and d["re"] != d["obs"] and not (strategy == "sam" and sam_ambiguous(cur_orig)):
-                why = same_distribution(d["obs"], d["re"])
+                why = same_distribution(d["obs"], d["re"], exact=strategy != "sam")
                 if why:
                     v = (f"re-aggregating the closed histogram into a fresh histogram of the same strategy changed it "
                          f"({why}): {d['obs'][:4]} became {d['re'][:4]}")
@@ -655,7 +699,11 @@ def run(prop, tier):
         "observation is a product total = v * n or went through a unit conversion (f64 rounding of the representation)",
         "the bound for values that are not bucket boundaries / neighbours / midpoints is argued from monotonicity inside a "
         "bucket, not enumerated; the property's domain is values below 2^43 - rows above are replayed but only feed MODEL-DRIFT",
-        "occurrence counts up to 2^33+1 per record (2^20 for sort-and-merge: it stores every occurrence)",
+        "occurrence counts up to 2^33+1 per record (1000 for sort-and-merge: it stores every occurrence)",
+        "re-aggregation: exponential strategies must report exactly the same values and counts (no tolerance); "
+        "sort-and-merge exactly when the reported value total/occurrences is itself an f64, else relative 1e-12. Every "
+        "bucket below scaled 64 (reported value = lower boundary) and a seeded sample above, with every bucket count "
+        "1..256 (1..1024 thorough) plus 1000, 4099, 65537, 2^20+1, 2^33+1",
         "histogram crate atomics: fetch_add / swap are linearizable (modelled as atomic steps)",
         "TLC: <= 3 concurrent recorders x <= 2 records with a concurrent bucket-by-bucket drain; behaviours up to depth 4/5",
     ]
@@ -669,6 +717,7 @@ def run(prop, tier):
     rng = random.Random(chk.seed * 7919 + 11)
     cases, _ = build_cases(table, tier, rng)
     cases += run_behaviours(chk, table, tier, rng)
+    cases += reagg_cases(table, tier, rng)
     results = run_cases(chk, table, cases, "table")
     compare_variants(chk, cases, results)
     run_conc(chk, table, runs=1 if tier == "quick" else 50)
